@@ -86,6 +86,9 @@ EncodedLen(v, r) ==
     /\ r = stream[Len(stream)].n
     /\ UNCHANGED <<wireVars, viewVars>>
 
+(* the byte image the writer produced is as long as the sum of the record sizes      *)
+Total(r) == r = total /\ UNCHANGED <<wireVars, viewVars>>
+
 (* the accelerated / batch output is byte-identical to the scalar one; both are     *)
 (* logged (byte arrays or digests [len, h])                                         *)
 BatchEqualsScalar(batch, scalar) ==
@@ -93,17 +96,18 @@ BatchEqualsScalar(batch, scalar) ==
     /\ UNCHANGED <<wireVars, viewVars>>
 
 (* versioned field: written by a manager at version wv for a field introduced in    *)
-(* fv, read by a manager whose reading version is rv.  The field is on the wire     *)
-(* iff wv >= fv; it is delivered iff it is on the wire and rv >= fv; otherwise the  *)
-(* reader gets None.  In every case exactly the written bytes are consumed.         *)
+(* fv (and, for a ranged proxy, retired after mx = <<max>>; <<>> = no upper bound),   *)
+(* read by a manager whose reading version is rv.  The field is on the wire iff      *)
+(* fv <= wv <= mx; it is delivered iff it is on the wire and rv >= fv; otherwise     *)
+(* the reader gets None.  In every case exactly the written bytes are consumed.      *)
 VGe(a, b) == \/ a[1] > b[1]
              \/ a[1] = b[1] /\ a[2] > b[2]
              \/ a[1] = b[1] /\ a[2] = b[2] /\ a[3] >= b[3]
-ReadField(v, present, consumed, at, wv, fv, rv) ==
+ReadField(v, present, consumed, at, wv, fv, rv, mx) ==
     /\ HasNext
     /\ at = off
     /\ consumed = stream[cur].n
-    /\ present = (VGe(wv, fv) /\ VGe(rv, fv))
+    /\ present = (VGe(wv, fv) /\ VGe(rv, fv) /\ (Len(mx) = 1 => VGe(mx[1], wv)))
     /\ present => v = stream[cur].v
     /\ Advance
 
